@@ -18,7 +18,7 @@ RULE = ('(schema, value) pairs as in C01 (all primitive / logical / named / recu
         'implementation encoding and up to 6 specification-legal layouts from the certified generator: block '
         'size 1, 2, 3 x positive counts / negative counts with byte sizes. non-trivial = distinct layouts that '
         'differ from the implementation\'s own bytes (i.e. the value contains a non-empty array or map); plus the serde writer on 12 corpus '
-        'types x target block sizes {none,1,16,64,large}, its bytes read by the strict block auditor')
+        'types x target block sizes {none,1,16,64,large}, its bytes read by the strict block auditor and the specification decoder')
 
 def gen_cases(tier, seed):
     rng = Rng(seed)
@@ -132,7 +132,7 @@ def evaluate(run, lines, meta, exe, drv):
         if tag(o) == 'obs' and len(o) > 8:
             fw.judge_partial(run, o[8], tag(o[2]) == 'ok' and tag(o[6]) == 'ok', st, case)
 
-SERDE_TYPES = ['scalars', 'nested', 'node', 'wrap-inner', 'wrap-suit', 'with-shapes', 'reuse', 'units', 'vec-unit', 'vec-nothing', 'pair', 'array3']
+SERDE_TYPES = ['blobs', 'blobs2', 'reversed', 'interleaved', 'with-many', 'scalars', 'nested', 'node', 'wrap-inner', 'wrap-suit', 'with-shapes', 'reuse', 'units', 'vec-unit', 'vec-nothing', 'pair', 'array3']
 SERDE_BLOCKS = ['', '1', '16', '64', '100000']
 
 def serde_audit(run, exe, drv, tier, seed):
